@@ -460,6 +460,9 @@ func runC12Multi(ctx *core.Ctx) {
 				u.Attr = c12MultiAttrs[(k+i)%5] // a service-level attribute
 			}
 		}
+		if sc, why := buildMulti(a); sc == nil {
+			ctx.Count("multi-skipped:" + why) // measured: these cases end in Skip
+		}
 		ctx.Add("c12.multi", a)
 		ctx.Count(fmt.Sprintf("multi:%s:remotes=%d", tag, a.Remotes))
 		ctx.Count(fmt.Sprintf("multi-units:%d", len(a.Units)))
